@@ -53,6 +53,12 @@ CrashTags(e) ==
        \cup (IF \E k \in 1..Len(e.runs) : e.runs[k].res = "ok" /\ ~e.runs[k].same
              THEN {"C17:torn_output_opens_as_an_archive"} ELSE {})
        \cup (IF \E k \in 1..Len(e.runs) : e.runs[k].res \notin {"ok", "err"} THEN {"C17:reader_crashes_on_torn_output"} ELSE {})
+       \* implementation-shaped comparison with the writer program of MC_IO (HeaderLast, final seek): drift report only
+       \cup (IF "shape" \in DOMAIN e /\ Len(e.shape) > 0 /\
+                 ( (\E i \in 1..Len(e.shape) : \E j \in (i + 1)..Len(e.shape) :
+                       e.shape[i] = <<1, 0>> /\ e.shape[j] = <<1, 1>>)              \* a header-region write before a body write
+                   \/ e.shape[Len(e.shape)][1] # 0 )                                 \* the last operation is not a seek
+              THEN {"INFO:drift_writer_operation_sequence_differs_from_MC_IO_program"} ELSE {})
 
 
 (* C12: the observation of a synchronous call and of its asynchronous twin *)
